@@ -141,6 +141,11 @@ def default_cases(rep, tier, r):
       space = vz.SearchSpace()
       space.add(pc)
       out = suggest_default.get_default_parameters(space)
+      if 'p' not in out:
+        rep.violation('the default / centre seed does not assign the parameter of a one-parameter space',
+                      {'parameter': repr(pc0)[:300], 'declared_default': repr(d), 'seed_parameters': sorted(out)})
+        rep.default_seed_concrete = True
+        continue
       val = out['p'].value
       res = '(Some %s)' % g_rv(val)
       obs = val
